@@ -16,6 +16,7 @@ type mLayout struct {
 	noteBreak  bool   // a multi-line annotation's note continues on the next line (OpenAPI harness only)
 	pipeGap    int    // spelling of the bar of a type choice: 0 " | ", 1 "|", 2 "| ", 3 " |", 4 "\t|  "
 	listBreak  bool   // in /* */ annotations the items of a rule's list stand on their own lines
+	emptyGap   string // blanks between the brackets of an empty container written on one line
 	annGap     string // blanks between element and annotation
 	multi      bool   // write annotations as /* */ instead of //
 	quoteNames bool   // quote rule names
@@ -119,6 +120,10 @@ func mPrintL(n mNode, L mLayout) string {
 		if n.kind == schema.TokenTypeArray {
 			open, close = "[", "]"
 		}
+		if len(n.children) == 0 && n.valText == "inline" {
+			// an empty container on one line, its annotation after the closing bracket
+			return s + open + L.emptyGap + close + mAnnotationL(n, L) + L.tail
+		}
 		s += open + mAnnotationL(n, L) + L.nl
 		if L.comments == 1 {
 			s += L.indent + "# a user comment" + L.nl
@@ -168,7 +173,7 @@ func mCanonical() mLayout {
 
 // mVary changes ONE layout dimension of L (chosen symbolically).
 func mVary(L mLayout, tag string) mLayout {
-	switch zzverif.IntRange(tag+"dim", 0, 12) {
+	switch zzverif.IntRange(tag+"dim", 0, 13) {
 	case 0:
 		L.nl = []string{"\r\n", "\r"}[zzverif.IntRange(tag+"nl", 0, 1)]
 	case 1:
@@ -187,6 +192,8 @@ func mVary(L mLayout, tag string) mLayout {
 		L.lead = L.nl + " " + L.nl
 	case 9:
 		L.nameGap = []string{" ", "\t", "  "}[zzverif.IntRange(tag+"nameGap", 0, 2)]
+	case 13:
+		L.emptyGap = []string{" ", "\t", "  "}[zzverif.IntRange(tag+"emptyGap", 0, 2)]
 	case 11:
 		L.pipeGap = zzverif.IntRange(tag+"pipeGap", 1, 4)
 	case 12:
@@ -223,7 +230,7 @@ var mModelNo int // the model chosen on this path (for the reachability witnesse
 func mModel() mNode {
 	d := string([]byte{zzverif.Digit("d")})
 	sc := string([]byte{zzverif.OneOf("s", "ab.")})
-	mModelNo = zzverif.IntRange("model", 0, 9)
+	mModelNo = zzverif.IntRange("model", 0, 11)
 	switch mModelNo {
 	case 0:
 		return mNode{kind: schema.TokenTypeNumber, valText: d, valWant: d,
@@ -246,6 +253,10 @@ func mModel() mNode {
 			{kind: schema.TokenTypeShortcut, key: "c", valText: "@t | @u", valWant: "@t | @u"},
 		}
 		return root
+	case 10: // an empty array on one line with rules and a note
+		return mNode{kind: schema.TokenTypeArray, valText: "inline", rules: []mRule{{"minItems", "0", mNum(schema.TokenTypeNumber, "0")}}, note: mNote("n.")}
+	case 11: // an empty object on one line with a note
+		return mNode{kind: schema.TokenTypeObject, valText: "inline", note: mNoteWith("empty ", sc)}
 	case 9: // the whole schema is a reference
 		return mNode{kind: schema.TokenTypeShortcut, valText: "@t", valWant: "@t"}
 	case 6: // a reference to a named enum rule as the LAST rule of the set
@@ -321,7 +332,7 @@ func ZzC14Pair() (*JSchema, *JSchema) {
 func VerifC14_Layout() {
 	// every model must be accepted under some layout pair: a model that is
 	// always rejected (e.g. for a missing rule) would compare nothing
-	zzverif.Expect("accepted", "rejected", "accepted-0", "accepted-1", "accepted-2", "accepted-3", "accepted-4", "accepted-5", "accepted-6", "accepted-7", "accepted-8", "accepted-9")
+	zzverif.Expect("accepted", "rejected", "accepted-0", "accepted-1", "accepted-2", "accepted-3", "accepted-4", "accepted-5", "accepted-6", "accepted-7", "accepted-8", "accepted-9", "accepted-10", "accepted-11")
 	m := mModel()
 	t1 := mPrintL(m, mCanonical())
 	t2 := mPrintL(m, mVaried())
@@ -346,7 +357,7 @@ func VerifC14_Layout() {
 		return
 	}
 	zzverif.Reach("accepted")
-	zzverif.Reach("accepted-" + string([]byte{byte('0' + mModelNo)}))
+	zzverif.Reach("accepted-" + []string{"0", "1", "2", "3", "4", "5", "6", "7", "8", "9", "10", "11"}[mModelNo])
 	a1, _ := s1.GetAST()
 	a2, _ := s2.GetAST()
 	zzverif.Assert(vSameAST(mNoRefBlanks(a1), mNoRefBlanks(a2)), "same AST under every layout (blanks inside a reference text aside)")
